@@ -13,7 +13,9 @@ package reference_criterion
 
 //@ func FindCriterionInRange
 //@   property C18 C01 C07 C09 C19 C20
+//@   indexsafe
 //@   requires len(*rankedCriteria) > 0
+//@   nopanic
 //@   ensures [member] result != nil && exists k int :: 0 <= k && k < len(*rankedCriteria) && *result == (*rankedCriteria)[k].Criterion
 //@   ensures [first_reaching] (exists k int :: 0 <= k && k < len(*rankedCriteria) && *result == (*rankedCriteria)[k].Criterion
 //@                && cum(*rankedCriteria, k + 1) >= expectedCumulatedWeight && (forall j int :: 0 <= j && j < k ==> cum(*rankedCriteria, j + 1) < expectedCumulatedWeight))
@@ -23,19 +25,26 @@ package reference_criterion
 
 //@ func (*ImportanceRatioReferenceCriterionProvider).Provide
 //@   property C18 C01 C07 C09 C19 C20
+//@   indexsafe
 //@   requires len(*rankedCriteria) > 0
 //@   ensures [member] result != nil && exists k int :: 0 <= k && k < len(*rankedCriteria) && *result == (*rankedCriteria)[k].Criterion
 //@   loop 1 invariant [sum] total == cum(*rankedCriteria, iter)
 
 //@ func (*RandomUniformReferenceCriterionProvider).Provide
 //@   property C18 C01 C07 C09 C19 C20
+//@   indexsafe
 //@   fnparam generator ensures 0.0 <= result && result < 1.0
+//@   fnparam .generator pure
+//@   nopanic
 //@   requires len(*rankedCriteria) > 0
 //@   ensures [member] result != nil && exists k int :: 0 <= k && k < len(*rankedCriteria) && *result == (*rankedCriteria)[k].Criterion
 
 //@ func (*RandomWeightedReferenceCriterionProvider).Provide
 //@   property C18 C01 C07 C09 C19 C20
+//@   indexsafe
 //@   requires len(*rankedCriteria) > 0
+//@   fnparam .generator pure
+//@   nopanic
 //@   ensures [member] result != nil && exists k int :: 0 <= k && k < len(*rankedCriteria) && *result == (*rankedCriteria)[k].Criterion
 //@   loop 2 invariant [ctx] fresh(mappedWeights) && len(mappedWeights) == len(*rankedCriteria)
 //@   loop 2 invariant [same_criteria] forall k int :: 0 <= k && k < iter ==> mappedWeights[k].Criterion == (*rankedCriteria)[k].Criterion
@@ -46,38 +55,46 @@ package reference_criterion
 //@   ensures result == factoryName(self)
 //@ func (*ImportanceRatioReferenceCriterionManager).Identifier
 //@   property C18 C19 C20 C01 C03 C04 C05 C06 C07 C08 C09 C11 C12 C13 C14 C15 C16 C17
+//@   indexsafe
 //@   nopanic
 //@   ensures [name] result == "importanceRatio"
 //@ func (*RandomUniformReferenceCriterionManager).Identifier
 //@   property C18 C19 C20 C01 C03 C04 C05 C06 C07 C08 C09 C11 C12 C13 C14 C15 C16 C17
+//@   indexsafe
 //@   nopanic
 //@   ensures [name] result == "randomUniform"
 //@ func (*RandomWeightedReferenceCriterionManager).Identifier
 //@   property C18 C19 C20 C01 C03 C04 C05 C06 C07 C08 C09 C11 C12 C13 C14 C15 C16 C17
+//@   indexsafe
 //@   nopanic
 //@   ensures [name] result == "randomWeighted"
 // every request gets its own provider object (the parameters are decoded into it)
 //@ func (*ImportanceRatioReferenceCriterionManager).NewProvider
 //@   property C18 C19 C09 C01 C07 C20
+//@   indexsafe
 //@   nopanic
 //@   ensures [new_object_each_time] typeis(result, *ImportanceRatioReferenceCriterionProvider) && fresh(result.(*ImportanceRatioReferenceCriterionProvider))
 //@ func (*RandomUniformReferenceCriterionManager).NewProvider
 //@   property C18 C19 C09 C01 C07 C20
+//@   indexsafe
 //@   nopanic
 //@   ensures [new_object_each_time] typeis(result, *RandomUniformReferenceCriterionProvider) && fresh(result.(*RandomUniformReferenceCriterionProvider))
 //@             && result.(*RandomUniformReferenceCriterionProvider).generator == i.RandomFactory
 //@ func (*RandomWeightedReferenceCriterionManager).NewProvider
 //@   property C18 C19 C09 C01 C07 C20
+//@   indexsafe
 //@   nopanic
 //@   ensures [new_object_each_time] typeis(result, *RandomWeightedReferenceCriterionProvider) && fresh(result.(*RandomWeightedReferenceCriterionProvider))
 //@ func (*ReferenceCriteriaManager).factory
 //@   property C18 C19 C20 C01 C07 C09
+//@   indexsafe
 //@   panics_iff [unknown_rule] !(exists k int :: 0 <= k && k < len(m.factories) && factoryName(m.factories[k]) == param.ReferenceCriterionType)
 //@   ensures [first_with_that_name] exists k int :: 0 <= k && k < len(m.factories) && result == m.factories[k] && factoryName(result) == param.ReferenceCriterionType
 //@             && forall j int :: 0 <= j && j < k ==> factoryName(m.factories[j]) != param.ReferenceCriterionType
 //@   loop 1 invariant [none_so_far] forall j int :: 0 <= j && j < iter ==> factoryName(m.factories[j]) != param.ReferenceCriterionType
 //@ func (*ReferenceCriteriaManager).extractFactoriesNames
 //@   property C20 C01 C07 C09 C18 C19
+//@   indexsafe
 //@   ensures [names] fresh(result) && len(result) == len(m.factories) && forall k int :: 0 <= k && k < len(m.factories) ==> result[k] == factoryName(m.factories[k])
 //@   loop 1 invariant [so_far] fresh(names) && len(names) == len(m.factories) && forall k int :: 0 <= k && k < iter ==> names[k] == factoryName(m.factories[k])
 //@ func (*ReferenceCriteriaManager).fetchFactoryTypeFromParams
@@ -89,6 +106,7 @@ package reference_criterion
 // statically): assumed to write only that object.
 //@ func (*ReferenceCriteriaManager).ForParams
 //@   property C18 C19 C20 C01 C07 C09
+//@   indexsafe
 //@   returnhint [rule_named_in_the_parameters_default_first] exists k int :: 0 <= k && k < len(m.factories) && factory == m.factories[k]
 //@             && factoryName(factory) == ((decoded_has(*params, "ReferenceCriterionType") && len(decoded_str(*params, "ReferenceCriterionType")) > 0)
 //@                  ? decoded_str(*params, "ReferenceCriterionType") : factoryName(m.factories[0]))
@@ -97,6 +115,7 @@ package reference_criterion
 // the registered object holds exactly the collaborators it was built with, each in its own role
 //@ func NewReferenceCriteriaManager
 //@   property C18 C19 C09
+//@   indexsafe
 //@   nopanic
 //@   ensures [wired_as_given] result != nil && fresh(result) && result.factories == factories
 
